@@ -126,6 +126,66 @@ theorem shell_lines_invisible_to_mcp (e : ParseEnv) (lines : List String) :
   · rw [filterMap_only_mcp e lines LineResult.mcpOf (by intro lr h; cases lr <;> simp_all [LineResult.mcpOf])]
   · rw [filterMap_only_mcp e lines LineResult.afterMcpOf (by intro lr h; cases lr <;> simp_all [LineResult.afterMcpOf])]
 
+/-! ### across config layers (`_merge_configs`) -/
+
+/-- merging layers keeps the families apart: the MCP lists of the result are built from the MCP
+    lists of the layers alone -/
+theorem merge_mcp_only (a a' b b' : Config)
+    (ha : a.mcpRules = a'.mcpRules) (hb : b.mcpRules = b'.mcpRules)
+    (ha2 : a.afterMcpRules = a'.afterMcpRules) (hb2 : b.afterMcpRules = b'.afterMcpRules) :
+    (mergeConfigs a b).mcpRules = (mergeConfigs a' b').mcpRules
+      ∧ (mergeConfigs a b).afterMcpRules = (mergeConfigs a' b').afterMcpRules := by
+  simp [mergeConfigs, ha, hb, ha2, hb2]
+
+/-- … and the shell-relevant parts from the shell-relevant parts of the layers alone -/
+theorem merge_shell_only (a a' b b' : Config)
+    (hr : a.rules = a'.rules) (hr' : b.rules = b'.rules)
+    (hd : a.redirectRules = a'.redirectRules) (hd' : b.redirectRules = b'.redirectRules)
+    (hal : a.aliases = a'.aliases) (hal' : b.aliases = b'.aliases) :
+    (mergeConfigs a b).rules = (mergeConfigs a' b').rules
+      ∧ (mergeConfigs a b).redirectRules = (mergeConfigs a' b').redirectRules
+      ∧ (mergeConfigs a b).aliases = (mergeConfigs a' b').aliases := by
+  simp [mergeConfigs, hr, hr', hd, hd', hal, hal']
+
+/-- **layered non-interference, MCP side**: edit the shell lines of any layer (user, project,
+    `$DIPPY_CONFIG`) in any way that keeps each layer's MCP lines – the verdict for every MCP tool
+    is unchanged -/
+theorem layered_mcp_ignores_shell (e : ParseEnv) (u p v u' p' v' : List String) (tool : String)
+    (hu : u.filter (isMcpLine e) = u'.filter (isMcpLine e))
+    (hp : p.filter (isMcpLine e) = p'.filter (isMcpLine e))
+    (hv : v.filter (isMcpLine e) = v'.filter (isMcpLine e)) :
+    matchMcp (mergeConfigs (mergeConfigs (parseLines e u) (parseLines e p)) (parseLines e v)) tool
+      = matchMcp (mergeConfigs (mergeConfigs (parseLines e u') (parseLines e p')) (parseLines e v')) tool := by
+  apply mcp_depends_only_on_mcp_rules
+  have key : ∀ a a' : List String, a.filter (isMcpLine e) = a'.filter (isMcpLine e) →
+      (parseLines e a).mcpRules = (parseLines e a').mcpRules := by
+    intro a a' h
+    rw [(shell_lines_invisible_to_mcp e a).1, (shell_lines_invisible_to_mcp e a').1, h]
+  simp [mergeConfigs, key u u' hu, key p p' hp, key v v' hv]
+
+/-- **layered non-interference, shell side**: edit the MCP lines of any layer – every shell-relevant
+    part of the merged configuration, hence every shell verdict, is unchanged -/
+theorem layered_shell_ignores_mcp (w : World) (env : PathEnv) (e : ParseEnv) (u p v u' p' v' : List String)
+    (hu : u.filter (fun l => !isMcpLine e l) = u'.filter (fun l => !isMcpLine e l))
+    (hp : p.filter (fun l => !isMcpLine e l) = p'.filter (fun l => !isMcpLine e l))
+    (hv : v.filter (fun l => !isMcpLine e l) = v'.filter (fun l => !isMcpLine e l)) :
+    w.withConfig env (mergeConfigs (mergeConfigs (parseLines e u) (parseLines e p)) (parseLines e v))
+      = w.withConfig env (mergeConfigs (mergeConfigs (parseLines e u') (parseLines e p')) (parseLines e v')) := by
+  have key : ∀ a a' : List String, a.filter (fun l => !isMcpLine e l) = a'.filter (fun l => !isMcpLine e l) →
+      (parseLines e a).rules = (parseLines e a').rules
+        ∧ (parseLines e a).redirectRules = (parseLines e a').redirectRules
+        ∧ (parseLines e a).aliases = (parseLines e a').aliases := by
+    intro a a' h
+    have h1 := mcp_lines_invisible_to_shell e a
+    have h2 := mcp_lines_invisible_to_shell e a'
+    simp only at h1 h2
+    rw [h1.1, h1.2.1, h1.2.2.1, h2.1, h2.2.1, h2.2.2.1, h]
+    exact ⟨rfl, rfl, rfl⟩
+  obtain ⟨u1, u2, u3⟩ := key u u' hu
+  obtain ⟨p1, p2, p3⟩ := key p p' hp
+  obtain ⟨v1, v2, v3⟩ := key v v' hv
+  apply shell_verdict_ignores_mcp <;> simp [mergeConfigs, u1, u2, u3, p1, p2, p3, v1, v2, v3]
+
 /-- non-vacuity: a mixed text really has both families -/
 example :
     let e : ParseEnv := ⟨"/h", fun _ => none⟩
